@@ -39,6 +39,9 @@ type Object struct {
 	t       types.Type
 	name    string
 	allocFn *ssa.Function // function whose Alloc created the object (it may initialise it before publishing it)
+	// elemGuard is set on the backing array of a slice that was loaded from a guarded field: element accesses
+	// are then subject to the same mutex as the field
+	elemGuard *elemGuard
 }
 
 type PtrV struct {
